@@ -144,6 +144,10 @@ func lambdaList(specs []string, tagged bool) string {
 }
 
 // methodBody: bodies only emit identities through vt:mark (untagged: (vt:mark id [value]); tagged: (vt:mark tag id)).
+// Only ordinary functions are used (list, vt:mark, call-next-method, next-method-p): their argument forms are
+// compiled when the method is defined. Special forms (prog1, let, ...) compile their arguments in place at the first
+// evaluation, unsynchronised, which is a race between concurrent first calls that has nothing to do with dispatch
+// (see notes/C10.md, observation O1).
 func methodBody(q, style string, id, n int, tagged bool) string {
 	mark := func(v int) string {
 		if tagged {
@@ -164,13 +168,13 @@ func methodBody(q, style string, id, n int, tagged bool) string {
 		case "stop":
 			return fmt.Sprintf("%s %d", mark(id), id)
 		case "twice":
-			return fmt.Sprintf("%s (prog1 (list %d %s %s) %s)", mark(id), id, cnm, cnm, mark(-id))
+			return fmt.Sprintf("%s (list %d %s %s %s)", mark(id), id, cnm, cnm, mark(-id))
 		case "nmp":
-			return fmt.Sprintf("(vt:mark %d (next-method-p)) (prog1 (list %d %s) %s)", id, id, cnm, mark(-id))
+			return fmt.Sprintf("(vt:mark %d (next-method-p)) (list %d %s %s)", id, id, cnm, mark(-id))
 		case "noargs":
-			return fmt.Sprintf("%s (prog1 (list %d (call-next-method)) %s)", mark(id), id, mark(-id))
+			return fmt.Sprintf("%s (list %d (call-next-method) %s)", mark(id), id, mark(-id))
 		}
-		return fmt.Sprintf("%s (prog1 (list %d %s) %s)", mark(id), id, cnm, mark(-id))
+		return fmt.Sprintf("%s (list %d %s %s)", mark(id), id, cnm, mark(-id))
 	}
 	return fmt.Sprintf("%s %d", mark(id), id)
 }
@@ -677,7 +681,7 @@ func rules() {
 		"the model's for some table version that existed during the call). Non-trivial: the history contains call(c) -> definition/removal that changes the applicable " +
 		"set of c -> call(c) whose outcome is checked (the stale-cache triple); concurrent: some call overlapped a definition/removal. Distinct by case text.")
 	h.Assume("internal/refdispatch encodes the standard method combination as design/generics.md describes it; class precedence lists are a table in the model, compared with slip's class-precedence and Hierarchy() by sub-property class-precedence-table")
-	h.Assume("vt:mark (harness Go built-in) records the trace; method bodies use only vt:mark, prog1, list, call-next-method, next-method-p")
+	h.Assume("vt:mark (harness Go built-in) records the trace; method bodies use only vt:mark, list, call-next-method, next-method-p")
 }
 
 func TestC10History(t *testing.T) {
